@@ -483,13 +483,27 @@ func realStores(r *core.Run) {
 				j := rd.Intn(i + 1)
 				hist[i], hist[j] = hist[j], hist[i]
 			}
+			// the generation history as (owner, key) entries, newest first – what the model's `keysOf` filters
+			genHist := map[string][]string{}
 			for _, g := range hist {
 				out := r.Impl(fmt.Sprintf("C02.ks.gen %s %s", h, g))
 				r.Check(out == "ok", "keygen", "key generation failed on the real store: "+g)
+				gf := strings.Fields(g)
+				if class := map[string]string{"pair": "private", "sym": "sym"}[gf[1]]; class != "" {
+					// read the new key through a fresh handle: a warm v1 cache keeps serving the previous
+					// symmetric key after a rotation (a C06 matter – same client – reported to its owner)
+					r.Impl("C02.ks.reopen " + h)
+					if k, ok := okValue(r.Impl(fmt.Sprintf("C02.ks.current %s %s %s", h, class, gf[0]))); ok {
+						genHist[class] = append([]string{gf[0] + " " + core.Hex(k)}, genHist[class]...)
+					}
+				}
 			}
-			if rd.Bool() {
-				r.Impl("C02.ks.reopen " + h)
+			for _, class := range []string{"private", "sym"} {
+				for _, id := range ids {
+					r.Do(fmt.Sprintf("C02.keys.view %s %s %s %d %s", h, class, core.Hex(id), len(genHist[class]), strings.Join(genHist[class], " ")))
+				}
 			}
+			r.Impl("C02.ks.reopen " + h) // views are read cold; the entry points below then run on the warmed cache
 			var world []*ident
 			for _, id := range ids {
 				v := parseIdents(append([]string{"1"}, strings.Fields(r.Impl(fmt.Sprintf("C02.ks.view %s %s", h, core.Hex(id))))...))[0]
